@@ -940,6 +940,7 @@ func c07HeaderValuesValidated(c *Ctx, fns []*ssa.Function) {
 		})
 	}
 	var safe func(fn *ssa.Function, v ssa.Value, d int) bool
+	weakPred := ""
 	predicateOver := func(fn *ssa.Function, at ssa.Instruction, v ssa.Value) bool {
 		pd := flow.NewPostDom(fn)
 		for _, g := range pd.ControlDepsTransitive(at.Block()) {
@@ -954,6 +955,12 @@ func c07HeaderValuesValidated(c *Ctx, fns []*ssa.Function) {
 			if call, ok := cond.(*ssa.Call); ok {
 				for _, a := range call.Call.Args {
 					if a == v {
+						// the library's own validator has to reject what net/http rejects in a header value: the C0
+						// control bytes other than tab, and DEL
+						if sc := ir.StaticCallee(call); sc != nil && c.P.IsLib(sc) && !rejectsControlBytes(c, sc) {
+							weakPred = fname(sc)
+							continue
+						}
 						return true
 					}
 				}
@@ -962,6 +969,9 @@ func c07HeaderValuesValidated(c *Ctx, fns []*ssa.Function) {
 		return false
 	}
 	safe = func(fn *ssa.Function, v ssa.Value, d int) bool {
+		if d > 12 {
+			return false // a loop-carried value: not one of the safe origins
+		}
 		switch x := v.(type) {
 		case *ssa.Const:
 			return true
@@ -1034,9 +1044,14 @@ func c07HeaderValuesValidated(c *Ctx, fns []*ssa.Function) {
 				}
 				return callers > 0
 			}
+			weakPred = ""
 			okStore := storeOK(fn, st.Val, st, 0)
-			c.R.Check(okStore, "R-header-value", "store of "+key+" in "+fname(fn), c.Pos(st.Pos()), "the value is a constant, comes from a response header, or passed a test",
-				sprintf("%s stores into %s — which the client copies into the %s header of its requests — a value taken from the server's stream without testing it: an id with a control character makes net/http reject every later request of this client", fname(fn), key, hdr))
+			how := "without testing it"
+			if weakPred != "" {
+				how = "after a test (" + weakPred + ") that contains no comparison against the control-byte bounds 0x20 and 0x7f (nor unicode.IsControl), so it lets control bytes through"
+			}
+			c.R.Check(okStore, "R-header-value", "store of "+key+" in "+fname(fn), c.Pos(st.Pos()), "the value is a constant, comes from a response header, or passed a test that rejects control bytes",
+				sprintf("%s stores into %s — which the client copies into the %s header of its requests — a value taken from the server's stream %s: an id with a control character makes net/http reject every later request of this client", fname(fn), key, hdr, how))
 		})
 	}
 	var ks []string
@@ -1398,4 +1413,41 @@ func c07BoundedDrain(c *Ctx, rule string) {
 	if n == 0 {
 		c.R.Hold(rule, "no response body is read to EOF only to be discarded", "", "client-side io.Copy(io.Discard, …) / unused io.ReadAll of a response body: none")
 	}
+}
+
+// rejectsControlBytes: the predicate (or a library function it calls) compares bytes against both bounds of the range
+// net/http refuses in header values — an ordered comparison with 0x20 (or 0x1f) and a comparison with 0x7f (or an
+// ordered one with 0x7e) — or delegates to unicode.IsControl / a ValidHeaderFieldValue.
+func rejectsControlBytes(c *Ctx, pred *ssa.Function) bool {
+	lo, hi := false, false
+	for _, f := range sortedFuncs(c.Reach(pred)) {
+		if f != pred && !c.P.IsLib(f) {
+			continue
+		}
+		ir.EachInstr(f, func(_ *ssa.BasicBlock, _ int, in ssa.Instruction) {
+			switch x := in.(type) {
+			case *ssa.BinOp:
+				k, ok := ir.ConstInt(x.Y)
+				if !ok {
+					k, ok = ir.ConstInt(x.X)
+				}
+				if !ok {
+					return
+				}
+				ordered := x.Op == token.LSS || x.Op == token.LEQ || x.Op == token.GTR || x.Op == token.GEQ
+				if (k == 0x20 || k == 0x1f) && ordered {
+					lo = true
+				}
+				if (k == 0x7f && (ordered || x.Op == token.EQL || x.Op == token.NEQ)) || (k == 0x7e && ordered) {
+					hi = true
+				}
+			case ssa.CallInstruction:
+				n := ir.CallName(x)
+				if n == "unicode.IsControl" || strings.HasSuffix(n, "ValidHeaderFieldValue") {
+					lo, hi = true, true
+				}
+			}
+		})
+	}
+	return lo && hi
 }
